@@ -1,6 +1,6 @@
 (** C10 - Interaction-list files replay the event stream and round-trip presence. *)
 From DynVerif Require Import Base Graph Derived Spec Annotate IO.
-From DynVerif.proofs Require Import CoreInv C01Facts QueryFacts LogInv DerivedFacts IOFacts ReplayFacts LogRead.
+From DynVerif.proofs Require Import CoreInv C01Facts QueryFacts LogInv DerivedFacts IOFacts ReplayFacts LogRead TextRoundTrip.
 From Coq Require Import Sorting.Sorted.
 
 (** write_interactions emits exactly the events of stream_interactions(), as rows (u, v, op, t), in
@@ -88,6 +88,13 @@ Proof.
   - apply (InvLog_run cs (G0 dir) []); [reflexivity|apply Inv_init|apply InvLog_init].
 Qed.
 Print Assumptions C10_reachable.
+(** the same at text level: the written lines, read by the text reader *)
+Theorem C10_file_roundtrip_partial : forall g m d, GoodG g -> InvLog g -> all_closed g ->
+  ~ rchar m -> ~ rchar d -> m <> d -> is_ws d = false -> m <> 43 -> m <> 45 -> d <> 43 -> d <> 45 ->
+  exists H, read_interactions_text (g_dir g) m (Some d) false (map (render_int_row d) (gen_interactions g)) = TxOk H /\
+            forall u v tau, has_interaction H u v (Some tau) = has_interaction g u v (Some tau).
+Proof. exact interaction_file_roundtrip. Qed.
+Print Assumptions C10_file_roundtrip_partial.
 (** for a graph holding an unclosed two-instant run the full statement is refuted by that very graph: *)
 Theorem C10_roundtrip_refuted : exists g H u v tau, GoodG g /\
   parse_interactions (g_dir g) (gen_interactions g) = RdOk H /\
